@@ -6,7 +6,7 @@ from typing import Any, Dict, List, Optional, Tuple
 
 import yaml
 
-TEMPLATE_PREFIX = "x="
+TEMPLATE_PREFIX = "~/$HOME/x="      # every rendered template starts with tokens that a shell (or os.path.expandvars / expanduser) would expand: the documented result is the literal text
 NULL_CFG = -9999        # Library.tla NullCfg: a parameter configured as YAML null
 
 
